@@ -98,10 +98,16 @@ func (e *Envelope) VerifySignature(sig *dsig.Signature, keys ...*dsig.PublicKey)
 }
 
 func (e *Envelope) verifySignature(sig *dsig.Signature, keys ...*dsig.PublicKey) error {
+	if e.Head == nil {
+		return errors.New("header mismatch") // nothing the signed header could be contained in
+	}
 	if len(keys) == 0 {
 		// no keys provided, only check the contents
 		h := new(head.Header)
 		if err := sig.UnsafePayload(h); err != nil {
+			return errors.New("invalid signature payload")
+		}
+		if err := schema.CheckNullElements(h); err != nil {
 			return errors.New("invalid signature payload")
 		}
 		if !e.Head.Contains(h) {
@@ -113,6 +119,9 @@ func (e *Envelope) verifySignature(sig *dsig.Signature, keys ...*dsig.PublicKey)
 		h := new(head.Header)
 		if err := sig.VerifyPayload(k, h); err != nil {
 			continue
+		}
+		if err := schema.CheckNullElements(h); err != nil {
+			return errors.New("invalid signature payload")
 		}
 		if e.Head.Contains(h) {
 			return nil
